@@ -585,7 +585,12 @@ def ndarray_attr(interp, o, name):
         return getattr(o, name)
     if name in ("sum", "cumsum", "prod", "cumprod", "copy", "tolist", "reshape", "flatten", "ravel", "transpose", "dot", "astype", "item"):
         if name == "astype":
-            return Model(lambda interp, t, **k: o.copy(), "astype")
+            def _astype(interp, t, **k):
+                tt = t.pytype if isinstance(t, Model) else t
+                if tt is int:
+                    return np_map(to_int_trunc, o)
+                return o.copy()
+            return Model(_astype, "astype")
         return getattr(o, name)
     if name in ("max", "min"):
         f = smax if name == "max" else smin
